@@ -12,14 +12,14 @@ import (
 func init() {
 	register(
 		&Rule{ID: "KI-WRITERS", Doc: "the builder's / token's configuration (root key id, random source, root key) is written only by constructors and option appliers; Build does not reset it", Run: ruleKIWriters, Min: 4},
-		&Rule{ID: "OWN-CLOSURE", Doc: "option closures store only values they create themselves or scalars, never a captured mutable object (which every configured instance would share)", Run: ruleOwnClosure, Min: 3},
+		&Rule{ID: "OWN-CLOSURE", Doc: "option closures store only values they create themselves or scalars, never a captured mutable object (which every configured instance would share)", Run: ruleOwnClosure, Min: 2},
 		&Rule{ID: "LM-JOIN", Doc: "evaluation really ends when it is over: the join producer polls its stop channel at every step, Apply returns only after the producer has exited, the worker never commits after the deadline and always reports, and Run waits for it", Run: ruleLMJoin, Min: 5},
 		&Rule{ID: "LM-QUERY", Doc: "every application of a rule on behalf of the authorizer is bounded by the world's limits and its error reaches the caller", Run: ruleLMQuery, Min: 2},
-		&Rule{ID: "BLD-PURE", Doc: "building a token or a block does not modify the builder it is built from", Run: ruleBldPure, Min: 2},
+		&Rule{ID: "BLD-PURE", Doc: "building a token or a block does not modify the builder it is built from", Run: ruleBldPure, Min: 1},
 		&Rule{ID: "PN-STDOUT", Doc: "library code does not write to standard output / standard error", Run: rulePNStdout, Min: 1},
 		&Rule{ID: "EX-DATECONV", Doc: "signed seconds (time.Time.Unix) become an unsigned date only after a range test, and the encoder refuses wrapped dates", Run: ruleEXDateConv, Min: 2},
 		&Rule{ID: "SN-FRESH", Doc: "a snapshot replaces the authorizer's symbol table only when the authorizer holds no content yet (the snapshot's indexes would reinterpret existing facts and rules)", Run: ruleSNFresh, Min: 1},
-		&Rule{ID: "SN-ALL", Doc: "saving and loading a snapshot treat every fact, rule, check, policy and query: no element is skipped by a continue or a conditional add", Run: ruleSNAll, Min: 8},
+		&Rule{ID: "SN-ALL", Doc: "saving and loading a snapshot treat every fact, rule, check, policy and query: no element is skipped by a continue or a conditional add", Run: ruleSNAll, Min: 4},
 		&Rule{ID: "SN-FIELDS", Doc: "the authorizer snapshot writes every field of pb.AuthorizerPolicies and the loader reads every field; written version = accepted version", Run: ruleSNFields, Min: 12},
 		&Rule{ID: "SN-KIND", Doc: "policy kinds are mapped totally, inversely and name-consistently when saving and loading", Run: ruleSNKind, Min: 4},
 		&Rule{ID: "SN-DIRTY", Doc: "saving is refused once the world has been run; every successful Run marks the authorizer dirty", Run: ruleSNDirty, Min: 3},
@@ -321,9 +321,41 @@ func ruleSNSyms(p *Prog, r *Reporter) {
 		return
 	}
 	LV := ld.Params[0].Name()
+	// the table the loader works on: the authorizer's own, or a local one installed as the authorizer's
+	// table on every successful return (content built aside, then committed)
+	var installed ssa.Value
+	for _, b := range ld.Blocks {
+		for _, in := range b.Instrs {
+			st, ok := in.(*ssa.Store)
+			if !ok {
+				continue
+			}
+			fa, isFA := st.Addr.(*ssa.FieldAddr)
+			if !isFA || fa.X != ssa.Value(ld.Params[0]) || fieldName(fa) != "symbols" {
+				continue
+			}
+			all := true
+			for _, ret := range returnsOf(ld) {
+				if isErrorReturn(ret) {
+					continue
+				}
+				if !(b == ret.Block() || b.Dominates(ret.Block())) {
+					all = false
+				}
+			}
+			if all {
+				if _, isCall := st.Val.(*ssa.Call); isCall {
+					installed = st.Val
+				}
+			}
+		}
+	}
+	isTable := func(v ssa.Value) bool {
+		return p.D(v) == LV+".symbols" || (installed != nil && (v == installed || p.D(v) == p.D(installed)))
+	}
 	var ext ssa.CallInstruction
 	for _, c := range callsIn(ld) {
-		if isCallTo(c.Common(), "datalog.SymbolTable.Extend") && p.D(c.Common().Args[0]) == LV+".symbols" && dependsOn(c.Common().Args[1], func(x ssa.Value) bool { return strings.HasSuffix(p.D(x), ".Symbols") }) {
+		if isCallTo(c.Common(), "datalog.SymbolTable.Extend") && isTable(c.Common().Args[0]) && dependsOn(c.Common().Args[1], func(x ssa.Value) bool { return strings.HasSuffix(p.D(x), ".Symbols") }) {
 			ext = c
 		}
 	}
@@ -343,7 +375,7 @@ func ruleSNSyms(p *Prog, r *Reporter) {
 		}
 		r.Check(instrDominates(ext, c), p.instrPos(c), p.FuncName(ld), f.Name()+" after Extend", "content is interpreted only after the table was extended", f.Name()+" runs before the symbol table is extended: symbol indexes of the snapshot resolve to the wrong strings")
 		if strings.HasPrefix(f.Name(), "fromDatalog") {
-			r.Check(p.D(c.Common().Args[0]) == LV+".symbols", p.instrPos(c), p.FuncName(ld), f.Name()+" table", "resolved against the extended authorizer table", "resolved against "+shortD(c.Common().Args[0]))
+			r.Check(isTable(c.Common().Args[0]), p.instrPos(c), p.FuncName(ld), f.Name()+" table", "resolved against the extended authorizer table", "resolved against "+shortD(c.Common().Args[0]))
 		}
 	}
 }
